@@ -49,7 +49,7 @@ RULE = (
 ASSUMPTIONS = [
     "exact eigenpair from numpy.linalg.eigh on the Fock engine's Hamiltonian; runs whose target eigenvalue is closer than 1e-3 to the next one are skipped (precondition)",
     "block energies and returned energies are compared at 2e-5 max(1,|E0|) (finite-difference trial, float32 samples), single local energies inside the loops at 2e-4 max(1,|E0|) (finite-difference round-off grows for walkers with small overlap)",
-    "restricted walkers are used only with a closed-shell reference determinant (the library's restricted fast path is defined for that case; get_init_walkers refuses otherwise with an explicit error)",
+    "restricted walkers (closed-shell sectors) are used with any reference determinant, also one whose alpha and beta strings differ; runs in which get_init_walkers refuses (no closed-shell walker with trial overlap > 1e-3) are counted as precondition failures",
     "full determinant lists (all determinants of the sector), so the compiled array shapes do not depend on the reference",
 ]
 COMPONENTS = {
@@ -58,7 +58,7 @@ COMPONENTS = {
     "model": ["afqmcsim.models.fock (Hamiltonian, exact diagonalisation, determinant amplitudes)"],
     "stub": ["mpi4py.MPI -> SimComm/SimWorld", "wall clock", "stdout", "Dice (dets.bin written by an independent writer)"],
 }
-REQUIRED_PROBES = {"quick": ["list_runs", "driver_runs", "non_aufbau_reference", "file_route", "exact_energy_checks", "spin_dependent_h1"],
+REQUIRED_PROBES = {"quick": ["list_runs", "driver_runs", "non_aufbau_reference", "file_route", "exact_energy_checks", "spin_dependent_h1", "restricted_entry_checked"],
                    "thorough": ["list_runs", "driver_runs", "non_aufbau_reference", "file_route", "pyscf_route", "exact_energy_checks", "fault_fired"]}
 
 
@@ -67,7 +67,7 @@ def menu_entry(k):
     kind = ["lists", "driver", "lists", "driver"][k % 4]
     m = dict(kind=kind, norb=4, nchol=r.choice([2, 3]))
     if kind == "lists":
-        m["nelec"] = r.choice([[1, 1], [2, 1], [2, 2], [3, 1]])
+        m["nelec"] = r.choice([[1, 1], [2, 1], [2, 2], [3, 1], [3, 2], [2, 2]])
         m["wt"] = "unrestricted"
         m["n_walkers"] = 4
     else:
@@ -75,7 +75,7 @@ def menu_entry(k):
         m["nelec"] = r.choice([[1, 1], [2, 2]]) if m["wt"] == "restricted" else r.choice([[1, 1], [2, 1], [2, 2]])
         m.update(n_walkers=r.choice([4, 6]), dt=r.choice([0.005, 0.01, 0.02]), n_prop_steps=r.choice([1, 2, 3]), n_ene_blocks=r.choice([1, 2]), n_sr_blocks=r.choice([1, 2]),
                  n_blocks=r.choice([3, 4]), R=r.choice([1, 2, 3]), n_eql=1, n_ene_blocks_eql=1, n_sr_blocks_eql=1, ad_mode=None)
-    return m
+    return lab.corner_override(m, k, 11)
 
 
 def max_rank(norb, nelec):
@@ -169,9 +169,9 @@ def make_list(cfg, sec, vec):
     ro = random.Random(cfg["order_seed"])
     idx = list(range(sec.dim))
     ro.shuffle(idx)
-    closed = cfg["wt"] == "restricted"
-    cand = [k for k in idx if (not closed) or sec.index_to_occ(k)[0] == sec.index_to_occ(k)[1]]
-    cand = [k for k in cand if abs(vec[k]) > 1e-3]
+    # restricted walkers, too, meet references whose alpha and beta strings differ (get_init_walkers builds a
+    # blended closed-shell walker for them and refuses only if its trial overlap is below 1e-3: counted precondition)
+    cand = [k for k in idx if abs(vec[k]) > 1e-3]
     if not cand:
         return None
     if cfg["reference"] == "largest":
@@ -319,6 +319,26 @@ def _exec_lists(cfg, ctx):
             _bad(ctx, "lists.trial_is_not_sum_of_listed_determinants", site_o, cfg, walker=i, library=str(complex(ov_lib[i])), expected=str(complex(want)), ref_det=ref,
                  ratio=str(complex(ov_lib[i] / want)) if want != 0 else None)
             break
+    if nelec[0] == nelec[1]:
+        # the same list through the restricted-walker entry point (one matrix for both spins): the list need not be
+        # symmetric under exchange of the alpha and beta strings (random vectors are not)
+        ov_r = np.asarray(jax.jit(lambda a, wd: trial.calc_overlap(a, wd))(jnp.array(ups), wave_data))
+        for i in range(nw):
+            st_i = sec.det_state(ups[i], ups[i])
+            want = np.vdot(psi, st_i)
+            # a restricted walker can be exactly orthogonal to the trial (spin symmetry): absolute floor from the norms
+            if not abs(ov_r[i] - want) <= 1e-9 * abs(want) + 1e-11 * np.linalg.norm(st_i) * np.linalg.norm(psi):
+                _bad(ctx, "lists.trial_is_not_sum_of_listed_determinants", "multislater._calc_overlap_restricted", cfg, walker=i, library=str(complex(ov_r[i])), expected=str(complex(want)), ref_det=ref)
+                break
+        ctx.probe("restricted_entry_checked", 1)
+        if e_exact is not None and not cfg.get("spin_dep", False):
+            good_r = [i for i in range(nw) if abs(ov_r[i]) > 1e-3 * np.linalg.norm(sec.det_state(ups[i], ups[i]))]
+            e_r = np.asarray(jax.jit(lambda a, h, wd: trial.calc_energy(a, h, wd))(jnp.array(ups), hd, wave_data))
+            for i in good_r:
+                if not abs(e_r[i] - e_exact) <= E_TOL * max(1.0, abs(e_exact)):
+                    _bad(ctx, "lists.local_energy_of_exact_trial_is_not_the_eigenvalue", "multislater._calc_energy_restricted", cfg, walker=i, library=str(complex(e_r[i])), eigenvalue=e_exact, ref_det=ref)
+                    break
+            ctx.count("exact_energy_checks_restricted", len(good_r))
     if e_exact is not None:
         good = [i for i in range(nw) if abs(ov_lib[i]) > 1e-3 * np.linalg.norm(sec.det_state(ups[i], dns[i]))]
         e_lib = np.asarray(jax.jit(lambda a, b, h, wd: trial.calc_energy([a, b], h, wd))(jnp.array(ups), jnp.array(dns), hd, wave_data))
